@@ -526,6 +526,7 @@ func (r *Route) current() ([]netip.Prefix, error) {
 	}
 
 	var prefixes []netip.Prefix
+	seen := make(map[netip.Prefix]struct{})
 outer:
 	for _, rt := range routes {
 		// Skip IPv4 or /128s on loopbacks.
@@ -533,8 +534,20 @@ outer:
 			continue
 		}
 
+		// Only add each route once.
+		if _, ok := seen[rt.Prefix]; ok {
+			continue
+		}
+		seen[rt.Prefix] = struct{}{}
+
 		// Prefix covered by larger prefix which is not equal to itself.
 		for _, rt2 := range routes {
+			// Only a shorter prefix can cover this one: prefixes which share
+			// a base address must not eliminate each other.
+			if rt2.Prefix.Bits() >= rt.Prefix.Bits() {
+				continue
+			}
+
 			if rt.Prefix != rt2.Prefix && rt2.Prefix.Contains(rt.Prefix.Addr()) {
 				continue outer
 			}
